@@ -62,6 +62,21 @@ KNOWN_PREDICATES = {"beyond_coupled_stability_limit": _predicted_unstable}
 
 
 def generate(rng, tier, index):
+    if index % 10 in (7, 9):
+        # nested passive media, each stable on its own: a weakly dispersive low-index inclusion inside a strongly dispersive
+        # high-index host (a box placed later, or a sphere = multi-material object).  Every cell must carry the coefficients of
+        # the medium that covers it - the host's strong pole on the inclusion's low eps_inf would be unstable.
+        S = 0.5
+        dt = S / np.sqrt(3) * specgen.SPACING / 299792458.0
+        n = int(rng.integers(8, 11))
+        host = {"permittivity": float(rng.uniform(9.0, 12.0)), "dispersion": {"poles": [
+            {"kind": "lorentz", "w0": float(rng.uniform(0.15, 0.3) / dt), "gamma": float(rng.uniform(0.0, 0.05) / dt), "deps": float(rng.uniform(0.5, 1.5))},
+            {"kind": "lorentz", "w0": float(rng.uniform(0.7, 1.0) / dt), "gamma": float(rng.uniform(0.0, 0.05) / dt), "deps": float(rng.uniform(4.0, 8.0))}]}}
+        incl = {"permittivity": 1.0, "dispersion": {"poles": [{"kind": "lorentz", "w0": float(rng.uniform(0.1, 0.2) / dt), "gamma": float(rng.uniform(0.0, 0.05) / dt), "deps": float(rng.uniform(0.1, 0.3))}]}}
+        lo = [int(rng.integers(1, n - 5)) for _ in range(3)]
+        size = [int(rng.integers(3, 5)) for _ in range(3)]
+        return {"mode": "nested", "n": n, "courant": S, "host": host, "inclusion": incl, "shape_kind": "box" if index % 10 == 7 else "sphere", "box": [[a, a + s_] for a, s_ in zip(lo, size)],
+                "steps": 1500, "init_seed": int(rng.integers(0, 2**31))}
     if index % 2 == 1:
         S = float(specgen.choice(rng, [0.5, 0.7, 0.9, 0.99]))
         eps_inf = float(rng.uniform(1.0, 6.0))
@@ -249,8 +264,40 @@ def _bounded(spec):
     return {"violations": viol, "stats": stats, "residuals": resid, "nontrivial": bool(u0 > 0), "signature": sig, "digest": digest}
 
 
+def _nested(spec):
+    from fdtdx.fdtd.fdtd import custom_fdtd_forward
+    from fdsim import scene as sc, driver as dr
+    import fdtdx
+    import jax.numpy as jnp
+
+    n, T = spec["n"], spec["steps"]
+    obj = {"kind": "box", "name": "incl", "box": spec["box"], "material": spec["inclusion"], "order": 1}
+    if spec["shape_kind"] == "sphere":
+        radii = [0.49 * (b[1] - b[0]) * specgen.SPACING for b in spec["box"]]
+        obj.update({"kind": "sphere", "radius": radii[0], "radii": radii})
+    sspec = {"shape": [n, n, n], "grid": {"kind": "uniform", "spacing": specgen.SPACING}, "steps": T, "courant": spec["courant"], "key": 0,
+             "faces": {f: {"kind": "periodic"} for f in specgen.FACES}, "materials": {"mode": "objects", "objects": [obj], "background": spec["host"]}, "sources": [],
+             "detectors": [{"kind": "energy", "name": "u", "box": [[0, n]] * 3, "reduce": True, "exact": False}]}
+    scn = sc.build_scene(sspec)
+    E0, H0 = sc.random_fields(scn, spec["init_seed"], scale=1.0)
+    arr = scn.arrays.aset("fields->E", E0).aset("fields->H", H0)
+    t, out = custom_fdtd_forward(arr, scn.objects, scn.config, scn.key, reset_container=False, record_detectors=True, start_time=0, end_time=T, show_progress=False)
+    u = np.array(out.detector_states["u"]["energy"])[:, 0]
+    u0 = float(jnp.sum(fdtdx.compute_energy(E0, H0, arr.inv_permittivities, arr.inv_permeabilities))) * specgen.SPACING**3
+    growth = float(np.max(u) / u0) if np.all(np.isfinite(u)) and u0 > 0 else float("inf")
+    viol = []
+    if not (growth <= 10.0):
+        first = int(np.argmax(~np.isfinite(u) | (u > 10 * u0)))
+        viol.append({"monitor": "nested_passive_media_grow", "metric": "max U / U0", "value": min(growth, 1e300), "tolerance": 10.0, "first_step_above": first, "inclusion": spec["shape_kind"]})
+    stats = {"sim_steps": T, "sim_time_fs": T * scn.dt * 1e15, "probe_nested_" + spec["shape_kind"]: 1}
+    return {"violations": viol, "stats": stats, "residuals": {"nested_max_energy_over_initial": min(growth, 1e300)}, "nontrivial": bool(u0 > 0),
+            "signature": specgen.signature("nested", spec["shape_kind"], n), "digest": f"nested:{dr.sig3(u0)}:{dr.sig3(min(growth, 1e300))}:v{len(viol)}"}
+
+
 def execute(spec):
     from fdsim import env
 
     env.bootstrap()
+    if spec.get("mode") == "nested":
+        return _nested(spec)
     return _bounded(spec) if spec.get("mode") == "bounded" else _recurrence(spec)
